@@ -50,11 +50,15 @@ def check(prog, run):
                     e = I.instantiate(ecls, [{"first": 1, "name": v, "last": 2}], {}, None, _F())
                 else:
                     e = I.instantiate(ecls, [], {"first": 1, "name": v, "last": 2}, None, _F())
-                return I.get_attr(e, "keys", None, _F()), I.get_attr(e, "name", None, _F()) is v
+                return I.get_attr(e, "keys", None, _F()), I.get_attr(e, "name", None, _F()) is v, I.get_item(e, v, None, _F())
             p = ev(t, "keys %s" % kname)
             c = "Enum.keys value kind %s (%s form)" % (kname, form)
             if not p.returned:
                 run.violation("keys-are-supplied-names", c, "raises %s" % p.raised.describe(), file, line_keys, "pyscsi.utils.enum:Enum.keys")
+            elif p.value[0] == ["first", "name", "last"] and p.value[1] and p.value[2] not in ("name", "first" if kname == "bool" else "name"):
+                run.violation("reverse-lookup-first-match", "Enum[<%s>]" % kname,
+                              "reverse lookup of the %s supplied under 'name' returns %r" % (kname, p.value[2]), file,
+                              ecls.lookup("__getitem__")[0].node.lineno, "pyscsi.utils.enum:Enum.__getitem__")
             elif p.value[0] != ["first", "name", "last"] or not p.value[1]:
                 run.violation("keys-are-supplied-names", "Enum.keys value kind %s" % kname,
                               "an enumeration built from {'first': 1, 'name': <%s>, 'last': 2} reports keys %r: a supplied name whose "
@@ -98,7 +102,9 @@ def check(prog, run):
     def fresh():
         return I.instantiate(ecls, [dict(base)], {}, None, _F())
     # reverse lookup
-    for val, want in ((1, "a"), (2, "b"), (3, ""), ("1", "")):
+    # (absent values include those type() itself puts in a class namespace: __doc__ is None, __module__ is the
+    # name of the module that built the class)
+    for val, want in ((1, "a"), (2, "b"), (3, ""), ("1", ""), (None, ""), (ENUM, ""), ("Enum", ""), ("", ""), (0, ""), (1.5, ""), ((), "")):
         p = ev(lambda val=val: I.get_item(fresh(), val, None, _F()), "getitem")
         c = "Enum[%r] over %r" % (val, base)
         if p.returned and p.value == want:
